@@ -153,6 +153,15 @@ theorem wrapSingle_det {id : Option String} {ctx : Ctx} {k' k : Ctx → Except E
     · exact h1
   · exact h1
 
+theorem det_unit_self (x : Except Err Unit) : Det x x x := by
+  intro a ha
+  cases a
+  rw [ha]
+  rfl
+
+theorem consVars_nil : consVars [] = [] := rfl
+theorem presence_nil (σ : Scope) : presence [] σ = .ok () := rfl
+
 theorem det_same_of_ok {α : Type} {x : Except Err α} {c : Except Err Unit} (h : ∀ a, x = .ok a → c = .ok ()) :
     Det x x c := by
   intro a ha
@@ -195,9 +204,11 @@ theorem bw_det : ∀ (pt : PT) (σ : Scope) (cm : List (Chan × Option Chan)),
       intro a ha; rw [stripCons, buildWaveform] at ha; cases ha
   | .mapping id body pm mm' cm' cons, σ, cm => by
       rw [stripCons, buildWaveform, buildWaveform, mapParameterValues_eq, mapParameterValues_eq, validateCons_nil,
-        visibleA, visOutcome_append, visOutcome_append, visOutcome_consVis]
+        visibleA, visOutcome_append, visOutcome_append, visOutcome_append, visOutcome_consVis, visOutcome_keyVis,
+        presence_append, presence_append, consVars_nil, presence_nil]
       simp only [ok_bind, bind_assoc]
-      refine det_gate_bind (det_step (fun σ' hσ' => ?_))
+      refine det_bind (det_unit_self _) (fun _ _ _ => ?_)
+      refine det_gate_bind (det_gate_bind (det_step (fun σ' hσ' => ?_)))
       rw [mappedDict_of_mapValues hσ', visOutcome_needVis_ok (mapValues_ok hσ'), ok_bind]
       exact det_step (fun cmU _ => bw_det body σ' cmU)
   | .parallel id body over, σ, cm => by
@@ -248,8 +259,15 @@ theorem am_strip : ∀ (pt : PT) (σ : Scope) (mm : List (MName × Option MName)
       rw [visibleA] at h
       obtain ⟨h12, h3⟩ := visOutcome_append_ok h
       obtain ⟨h1, _⟩ := visOutcome_append_ok h12
+      obtain ⟨h0, h1⟩ := visOutcome_append_ok h1
       rw [visOutcome_consVis] at h1
-      rw [stripCons, atomicMeas, atomicMeas, mapParameterValues_eq, mapParameterValues_eq, validateCons_nil, h1]
+      rw [visOutcome_keyVis] at h0
+      have h0' : presence (kvVars pm) σ = .ok () := by
+        rw [presence_append] at h0
+        obtain ⟨u, hu, _⟩ := bind_ok.mp h0
+        cases u; exact hu
+      rw [stripCons, atomicMeas, atomicMeas, mapParameterValues_eq, mapParameterValues_eq, validateCons_nil, h1, h0,
+        consVars_nil, List.append_nil, h0']
       simp only [ok_bind]
       refine bind_congr' rfl (fun σ' hσ' => ?_)
       rw [mappedDict_of_mapValues hσ'] at h3
@@ -349,14 +367,16 @@ theorem int_det : ∀ (pt : PT) (σ : Scope) (mm : List (MName × Option MName))
       simp only [bind_assoc, bind_unit_ok]
       refine det_bind (det_cons cons σ.look) (fun _ _ _ => ?_)
       refine det_step (fun a ha => ?_)
+      simp only [intOrErr]
       cases hna : checkedInt a with
       | none => simp only [error_bind]; exact det_error
       | some na =>
-        simp only [pure_eq_ok, ok_bind]
+        simp only [ok_bind]
         refine det_step (fun b hb => ?_)
         cases hnb : checkedInt b with
         | none => simp only [error_bind]; exact det_error
         | some nb =>
+          simp only [ok_bind]
           refine det_step (fun s hs => ?_)
           cases hns : checkedInt s with
           | none => simp only [error_bind]; exact det_error
